@@ -1,6 +1,7 @@
 //! Runs a scenario against the real mock and compares it with the reference model.
 
 use std::collections::BTreeMap;
+#[cfg(feature = "std")]
 use std::process::Termination;
 
 use unimock::Unimock;
@@ -70,6 +71,12 @@ pub fn verify_original(original: Unimock, mode: VerifyMode) -> VerifyObs {
             Ok(()) => VerifyObs::Silent,
             Err(m) => VerifyObs::Panic(m),
         },
+        #[cfg(not(feature = "std"))]
+        VerifyMode::Report => match catch(move || original.verify()) {
+            Ok(()) => VerifyObs::Silent,
+            Err(m) => VerifyObs::Panic(m),
+        },
+        #[cfg(feature = "std")]
         VerifyMode::Report => match catch(move || original.report()) {
             Ok(code) => {
                 if format!("{code:?}") == format!("{:?}", std::process::ExitCode::SUCCESS) {
@@ -267,6 +274,9 @@ pub fn compare_run(scn: &Scenario, real: RealRun, opts: CompareOpts) -> Result<O
 
     let mut traces = vec![];
     let mut mock_panic_texts = vec![];
+    // without the std feature a mock-induced panic raised through the ORIGINAL instance
+    // deliberately disables its verification (documented no_std behaviour)
+    let mut original_panicked = false;
     for (i, (call, (obs, effects))) in scn.history.iter().zip(real.calls.iter()).enumerate() {
         let accepting = model
             .methods
@@ -278,6 +288,9 @@ pub fn compare_run(scn: &Scenario, real: RealRun, opts: CompareOpts) -> Result<O
         let new_effects: Vec<Effect> = model.effects[effects_before..].iter().map(effect_of).collect();
         if let Obs::MockPanic(text) = obs {
             mock_panic_texts.push(text.clone());
+            if call.via as usize % (scn.clones as usize + 1) == 0 {
+                original_panicked = true;
+            }
         }
         let describe = || {
             format!(
@@ -327,7 +340,7 @@ pub fn compare_run(scn: &Scenario, real: RealRun, opts: CompareOpts) -> Result<O
     }
 
     let verify = real.verify.clone().unwrap();
-    let verdict = model.verify();
+    let verdict = if !cfg!(feature = "std") && original_panicked { model::Verdict::Unspecified } else { model.verify() };
     let kinds = pattern_kinds(&scn.clauses);
     match &verdict {
         model::Verdict::Unspecified => {}
